@@ -378,7 +378,7 @@ func runCheck(id, tier string, writeBaseline bool) int {
 			}
 			continue
 		}
-		structural := inBase[o.Name] || (base.Counts != nil && base.Counts[o.Fn+"#"+o.Kind] == counts[o.Fn+"#"+o.Kind] && base.Counts[o.Fn+"#"+o.Kind] > 0) || o.Kind == "binding" || o.Kind == "engine" || len(base.Names) == 0
+		structural := disciplineKind(o) || inBase[o.Name] || (base.Counts != nil && base.Counts[o.Fn+"#"+o.Kind] == counts[o.Fn+"#"+o.Kind] && base.Counts[o.Fn+"#"+o.Kind] > 0) || o.Kind == "binding" || o.Kind == "engine" || len(base.Names) == 0
 		rp := getReplay(o)
 		switch {
 		case rp.confirmed:
@@ -418,6 +418,21 @@ func runCheck(id, tier string, writeBaseline bool) int {
 		return 1
 	}
 	return 0
+}
+
+// disciplineKind: obligations that enforce a rule at EVERY site (lock held at each access,
+// stores to immutable fields, mutation of shared bitmaps, atomics, use after release). A failing
+// instance is a violation of the rule even if the site did not exist on the unchanged tree.
+func disciplineKind(o *Obligation) bool {
+	switch {
+	case strings.HasPrefix(o.Kind, "guarded_by"), o.Kind == "lockset", o.Kind == "immutable", o.Kind == "static":
+		return true
+	case strings.HasPrefix(o.Kind, "pre sync."):
+		return true
+	case strings.HasPrefix(o.Kind, "pre ") && strings.Contains(o.Name, "created here"):
+		return true
+	}
+	return false
 }
 
 func prefixAll(p string, xs []string) []string {
